@@ -3,7 +3,7 @@
 ESC = "\x1b"
 SPACES = ["\t", "\n", "\x0b", "\x0c", "\r", " ", "\x85", "\xa0", " ", " ", " ", " ",
           " ", " ", " ", " ", "　"]
-WORDCH = "abcdefgXYZ0189.,;:!?-_/éü中文…¹²⁰⎯▌‣•⯁"
+WORDCH = "abcdefgXYZ0189.,;:!?-_/éü中文…¹²⁰⎯▌‣•⯁\u0301\ufe0f\u20dd"   # incl. combining marks (category M)
 STYLES = ["1", "3", "4", "9", "38;2;164;245;155", "48;2;75;75;75", "38;2;156;53;53", "48;2;13;125;0", "0", "", "1;4"]
 
 
@@ -17,6 +17,8 @@ def plain_text(rng, maxwords=12, newline_p=0.15, widespace_p=0.1):
         r = rng.random()
         if r < newline_p:
             out.append("\n" * rng.choice((1, 1, 1, 2, 3)))
+            if rng.random() < 0.25:
+                out.append(rng.choice("\u0301\u0300\ufe0f"))     # a combining mark right after a line break
         elif r < newline_p + widespace_p:
             out.append("".join(rng.choice(SPACES) for _ in range(rng.randint(1, 4))))
         else:
